@@ -634,6 +634,89 @@ def antichain_numerics(prog: Program, rep, RID: str):
                       "parallel edges between the components and the width is under-estimated (stDAG.get_width uses a set)", h.loc(loops[0]))
 
 
+def round7_helper_rules(prog: Program, rep, RID: str):
+    """Three obligations of the public substrate helpers (hunt 7):
+    (a) stDAG.get_flow_width: a capacity read from the caller's graph reaches the network simplex as a Python int when it is integral - the simplex keeps the
+        type of the capacities for its flows, a fixed-width numpy integer overflows, min_cost_flow swallows the exception and the width comes back as None;
+    (b) graphutils.max_bottleneck_path: the sink candidate starts as None and is chosen inside a loop; it is tested for None before it indexes the table
+        (a graph without edges has no candidate);
+    (c) compute_flow_decomp_safe_paths validates the flow values before it peels them (the peeling loop never ends on inf / nan)."""
+    from rules.semantic import enclosing_tests
+    # (a)
+    f = prog.own_method("stDAG", "get_flow_width")
+    adds = [c for c in calls_in(f.node) if isinstance(c.func, ast.Attribute) and c.func.attr == "add_edge" and any(k.arg == "u" for k in c.keywords)]
+    if not adds:
+        raise AnalysisError("stDAG.get_flow_width: the arcs of the min-cost-flow network were not found")
+    for c in adds:
+        cap = [k.value for k in c.keywords if k.arg == "u"][0]
+        key = "stDAG.get_flow_width:capacity-as-python-int"
+        if isinstance(cap, ast.Constant) or (isinstance(cap, ast.Call) and dotted(cap.func) == "float" and cap.args and isinstance(cap.args[0], ast.Constant)):
+            rep.ok(RID, key, "constant capacity", f.loc(c))
+            continue
+        if not isinstance(cap, ast.Name):
+            conv = isinstance(cap, (ast.Call, ast.IfExp)) and "int(" in norm(cap)
+            (rep.ok if conv else rep.violation)(RID, key, f"capacity `{norm(cap)[:70]}`" + ("" if conv else " reaches the network simplex in the caller's type: np.int32 / np.uint8 flow "
+                                                "values overflow in the simplex, min_cost_flow swallows the exception and get_flow_width returns None (no cover exists) where Python "
+                                                "ints give the width"), f.loc(c))
+            continue
+        stores = [st for st in walk_no_nested(f.node) if isinstance(st, ast.Assign) and any(isinstance(t, ast.Name) and t.id == cap.id for t in st.targets) and st.lineno < c.lineno]
+        raw = [st for st in stores if "flow_attr" in norm(st.value) and not (isinstance(st.value, ast.Call) and dotted(st.value.func) in ("int", "float", "Fraction"))]
+        conv = [st for st in stores if isinstance(st.value, ast.Call) and dotted(st.value.func) == "int" and norm(st.value.args[0]) == cap.id and
+                any("Integral" in norm(t) and pol for t, pol in enclosing_tests(f.node, st))]
+        conv += [st for st in stores if isinstance(st.value, ast.IfExp) and "Integral" in norm(st.value.test) and norm(st.value.body).startswith("int(")]
+        if raw and not conv:
+            rep.violation(RID, key, f"`{norm(raw[0])[:80]}` reaches the network simplex in the caller's type: np.int32 / np.int16 / np.uint8 flow values overflow in the simplex "
+                          "(it keeps the type of the capacities for its flows), min_cost_flow swallows the exception and get_flow_width returns None - its answer for 'no cover "
+                          "exists' - where Python ints give the width 2", f.loc(raw[0]))
+        elif conv:
+            rep.ok(RID, key, "integral capacities are converted with int()", f.loc(conv[0]))
+        else:
+            raise AnalysisError(f"stDAG.get_flow_width: definition of the capacity `{cap.id}` not recognised")
+    # (b)
+    g = prog.function("flowpaths.utils.graphutils", "max_bottleneck_path")
+    none_init = [st.targets[0].id for st in g.node.body if isinstance(st, ast.Assign) and len(st.targets) == 1 and isinstance(st.targets[0], ast.Name) and
+                 isinstance(st.value, ast.Constant) and st.value.value is None]
+    for nm in none_init:
+        loop_stores = [st for lp in g.node.body if isinstance(lp, (ast.For, ast.While)) for st in ast.walk(lp)
+                       if isinstance(st, ast.Assign) and any(isinstance(t, ast.Name) and t.id == nm for t in st.targets)]
+        if not loop_stores:
+            continue
+        last_loop = max(lp.end_lineno for lp in g.node.body if isinstance(lp, (ast.For, ast.While)) and any(st in list(ast.walk(lp)) for st in loop_stores))
+        uses = [n for n in ast.walk(g.node) if isinstance(n, ast.Subscript) and isinstance(n.slice, ast.Name) and n.slice.id == nm and n.lineno > last_loop]
+        if not uses:
+            continue
+        first = min(uses, key=lambda n: (n.lineno, n.col_offset))
+        key = f"max_bottleneck_path:{nm}-may-be-None"
+        guarded = False
+        for st in g.node.body:
+            if isinstance(st, ast.If) and last_loop < st.lineno <= first.lineno:
+                t = st.test
+                parts = t.values if isinstance(t, ast.BoolOp) and isinstance(t.op, ast.Or) else [t]
+                pos = [i for i, p_ in enumerate(parts) if norm(p_) in (f"{nm} is None", f"not {nm}")]
+                use_in = [i for i, p_ in enumerate(parts) if any(x is first for x in ast.walk(p_))]
+                if pos and (not use_in or pos[0] < use_in[0]) and st.body and isinstance(st.body[-1], (ast.Return, ast.Raise)):
+                    guarded = True
+        if guarded:
+            rep.ok(RID, key, f"`{nm} is None` leaves before `{norm(first)}` is read", g.loc(first))
+        else:
+            rep.violation(RID, key, f"`{norm(first)}` is read although `{nm}` is still None when the loop chose no candidate: a graph without edges (isolated nodes only) raises "
+                          "KeyError(None) - from max_bottleneck_path, stDAG.decompose_using_max_bottleneck and compute_flow_decomp_safe_paths - instead of the documented "
+                          "(None, None)", g.loc(first))
+    # (c)
+    h = prog.function("flowpaths.utils.safetyflowdecomp", "compute_flow_decomp_safe_paths")
+    peel = [c for c in calls_in(h.node) if isinstance(c.func, ast.Attribute) and c.func.attr == "decompose_using_max_bottleneck"]
+    val = [c for c in calls_in(h.node) if isinstance(c.func, ast.Attribute) and c.func.attr == "get_max_flow_value_and_check_non_negative_flow"]
+    key = "compute_flow_decomp_safe_paths:validate-before-peeling"
+    if not peel:
+        raise AnalysisError("compute_flow_decomp_safe_paths: the greedy decomposition was not found")
+    if val and min(c.lineno for c in val) < min(c.lineno for c in peel) and not enclosing_tests(h.node, val[0]):
+        rep.ok(RID, key, "the flow values are checked (finite, non-negative, present) before they are peeled", h.loc(val[0]))
+    else:
+        rep.violation(RID, key, "the greedy decomposition runs on flow values nothing has validated: the peeling loop subtracts bottlenecks until nothing is left, which never "
+                      "happens for an infinite or NaN value (a one-edge graph with flow inf never returns), and a missing attribute raises KeyError instead of the documented "
+                      "ValueError", h.loc(peel[0]))
+
+
 def check(prog: Program, rep):
     am = AliasModel(prog)
     rep.rule("C17.R1", "cache ownership", floor=9)
@@ -655,5 +738,6 @@ def check(prog: Program, rep):
     width_cache(prog, rep, "C17.R3b")
     rep.rule("C17.R7", "antichain / min-cost-flow numerics: positive-weight test, supply above the sum of demands, uncapacitated arcs, exact demands, ignored edges counted once", floor=5)
     antichain_numerics(prog, rep, "C17.R7")
+    round7_helper_rules(prog, rep, "C17.R7")
     from rules.values import no_memoised_functions_of_caller_objects
     no_memoised_functions_of_caller_objects(prog, rep, "C17.R1c", ["flowpaths.utils.graphutils", "flowpaths.utils.safetyflowdecomp", "flowpaths.utils.safetypathcovers", "flowpaths.utils.safetypathcoverscycles"])
